@@ -71,10 +71,12 @@ Lemma tok_store_query x s o q q' RC RF :
   InvX x s -> cell_of s o = Some (CQuery q) -> q_cb q' = q_cb q -> TokInv s RC RF -> TokInv (store_st o (CQuery q') s) RC RF.
 Proof.
   intros I Hq E T. apply (tokinv_same s); auto.
-  apply (held_cb_pres x s _ I); auto. apply cb_pres_sim; [simpl; lia|].
-  intros o'. rewrite cell_store. destruct (Nat.eqb o' o) eqn:E'.
-  - apply Nat.eqb_eq in E'. subst. rewrite Hq. exact E.
-  - apply cell_sim_refl.
+  apply (held_cb_pres x s _ I); auto. split; [|split; [|simpl; lia]].
+  - intros o' q0 Hc. rewrite cell_store. destruct (Nat.eqb o' o) eqn:E'.
+    + apply Nat.eqb_eq in E'. subst. rewrite Hq in Hc. inversion Hc; subst. eauto.
+    + eauto.
+  - intros o'. unfold shared_at. rewrite cell_store. destruct (Nat.eqb o' o) eqn:E'; auto.
+    apply Nat.eqb_eq in E'. subst. rewrite Hq. reflexivity.
 Qed.
 
 (* a connection is never a linked query *)
@@ -563,7 +565,7 @@ Proof.
       destruct (zeqb wrc ARES_SUCCESS).
       - destruct (inv_query _ _ IB _ HlB) as [qB HqB].
         destruct (attach_run sB qo qB co cA tcp IB HlB HqB HinB HcB HnclA)
-          as [sC [EC [IC [FC [EllC [_ [_ [EscC [_ [EtrC [_ HsimC]]]]]]]]]]].
+          as [sC [EC [IC [FC [EllC [_ [_ [EscC [_ [EtrC [_ [HsimC _]]]]]]]]]]]].
         assert (TC : TokInv sC RC RF).
         { apply (tokinv_same sB); auto. apply (held_cb_pres None sB sC IB EllC).
           apply cb_pres_sim; [exact (fr_next _ _ _ _ FC)|exact HsimC]. }
